@@ -392,10 +392,12 @@ class IndexedSet(MutableSet):
     def iter_slice(self, start, stop, step=None):
         "iterate over a slice of the set"
         iterable = self
-        if start is not None:
-            start = self._get_real_index(start)
-        if stop is not None:
-            stop = self._get_real_index(stop)
+        # islice below counts live items (iteration skips the dead slots),
+        # so start and stop are apparent indexes: only negatives need resolving
+        if start is not None and start < 0:
+            start = max(start + len(self), 0)
+        if stop is not None and stop < 0:
+            stop = max(stop + len(self), 0)
         if step is not None and step < 0:
             step = -step
             iterable = reversed(self)
